@@ -12,6 +12,8 @@ Not decided: ties of the trace (measure zero), numerical effect on indexing.
 import ast
 import re
 import itertools
+
+import numpy as np
 from fractions import Fraction as Fr
 
 from engine import pyfacts
@@ -156,11 +158,8 @@ def generators_of(m, name):
     return fn, gens
 
 
-def p1(R, m):
-    R.rule("C16.P1", "each named group: closed under multiplication, identity present, all det +1, order of the proper point "
-                     "group, and M.G.M^T == G for the generic conforming metric with M applied as find_uniq_u applies it (o . UBI)")
-    # convention of m_from_string and of the application in find_uniq_u
-    mfs = m.func("m_from_string")
+def _mfs_shape(R, m, mfs):
+    """fallback: the row convention of m_from_string from the shape of its loop"""
     loops = [n for n in ast.walk(mfs) if isinstance(n, ast.For)]
     R.shape(len(loops) == 1 and isinstance(loops[0].iter, ast.List), "C16.P1", REL, "m_from_string", "the loop over the three unit vectors")
     basis = ast.literal_eval(loops[0].iter)
@@ -192,6 +191,54 @@ def p1(R, m):
     R.extra["m_from_string_convention"] = "columns are images of basis vectors" if transposed else "rows are images of basis vectors"
     global TRANSPOSED
     TRANSPOSED = transposed
+
+
+def p1(R, m):
+    R.rule("C16.P1", "each named group: closed under multiplication, identity present, all det +1, order of the proper point "
+                     "group, and M.G.M^T == G for the generic conforming metric with M applied as find_uniq_u applies it (o . UBI)")
+    # the operator matrix of a generator string: m_from_string is evaluated by the value-numbering interpreter (exact integer /
+    # rational arithmetic over the function's own source; eval("lambda x,y,z: ...") becomes a lambda closure of the interpreter).
+    # When the interpreter cannot follow the function, the loop-shape recognition below decides the convention instead.
+    from engine import vn_py
+
+    def _eval(text, *a):
+        node = ast.parse(str(text).strip(), mode="eval").body
+        if not isinstance(node, ast.Lambda):
+            raise vn_py.Unsupported("eval of something else than a lambda")
+        return ("lambda", m, node, {})
+    interp = vn_py.Interp({"sym_u": m}, extra_globals={"eval": _eval})
+
+    def operator(sgen):
+        r = interp.call("sym_u", "m_from_string", sgen)
+        a_ = np.asarray(r, dtype=object)
+        if a_.shape != (3, 3):
+            raise vn_py.Unsupported("m_from_string returned shape %s" % (a_.shape,))
+        out = []
+        for i in range(3):
+            row = []
+            for j in range(3):
+                c = vn_py.concrete(a_[i, j])
+                if c is None:
+                    raise vn_py.Unsupported("symbolic entry in the operator of %r" % sgen)
+                row.append(Fr(c))
+            out.append(tuple(row))
+        return tuple(out)
+    mfs = m.func("m_from_string")
+    use_interp = True
+    try:
+        probe = operator("-y,x-y,z")
+        tprobe = operator("x+1,y+2,z+3")
+    except (vn_py.Unsupported, pyfacts.AnalysisError, SyntaxError, RecursionError) as ex:
+        use_interp = False
+        R.note("C16.P1: m_from_string is not followed by the interpreter (%s): convention decided from its loop shape" % str(ex)[:100])
+    if use_interp:
+        R.check(tprobe == IDENT, "C16.P1", REL, mfs.lineno, "m_from_string", "translation part removed: m_from_string('x+1,y+2,z+3') == identity (got %s)" % (
+            [[str(x) for x in r_] for r_ in tprobe],), "the translation part of an operator string leaks into the rotation matrix")
+        R.extra["m_from_string_convention"] = "rows are images of basis vectors" if probe == m_from_string_model("-y,x-y,z") else \
+            ("columns are images of basis vectors" if probe == tuple(zip(*m_from_string_model("-y,x-y,z"))) else "other")
+        R.inst("C16.P1", "m_from_string evaluated by the interpreter for every generator string (%s)" % R.extra["m_from_string_convention"])
+    else:
+        _mfs_shape(R, m, mfs)
     fu = m.func("find_uniq_u")
     opcalls = [c for c in ast.walk(fu) if isinstance(c, ast.Call) and isinstance(c.func, ast.Attribute) and c.func.attr == "op"]
     R.shape(len(opcalls) >= 1, "C16.P1", REL, "find_uniq_u", "the grp.op(o, u) application")
@@ -203,10 +250,10 @@ def p1(R, m):
     for name in sorted(ORDERS):
         fn, gens = generators_of(m, name)
         try:
-            mats = [m_from_string_model(g) for g in gens]
-            if TRANSPOSED:
+            mats = [operator(g) if use_interp else m_from_string_model(g) for g in gens]
+            if TRANSPOSED and not use_interp:
                 mats = [tuple(tuple(mm[j][i] for j in range(3)) for i in range(3)) for mm in mats]
-        except ValueError as ex:
+        except (ValueError, vn_py.Unsupported) as ex:
             R.fail("C16.P1: %s" % ex)
         grp = closure(mats)
         R.check(grp is not None, "C16.P1", REL, fn.lineno, name, "generators %s close to a finite group" % gens, "the generators do not close (more than 200 elements)")
